@@ -8,7 +8,8 @@ PROPERTY = "C12"
 RULE = 'Generator of C07 restricted to configurations with composite objects (dipoles, water, hard-disk dipole; N up to 4). Oracle per commit and on the initial state, per object: stored velocity == weighted sum of point-mass velocities (absent iff none moves, 1e-12*speed); stored position advanced to the event time == weighted barycentre of the nearest images of its point masses advanced from their own time stamps (1e-8 L). Non-trivial: history with >=1 lifting and >=1 end of chain; distinct by (config, edits, seed, budget).'
 ASSUMPTIONS = ["configurations are the runnable shipped .ini files verbatim, or shipped files with parameter edits "
                "only (particle number with number_event_handlers scaled, box, beta, chain/sampling times, grids, "
-               "occupant caps, scheduler, speed, initial direction); wiring is never generated",
+               "scheduler, speed, initial direction); generated wirings are limited to the families G4-G7 derived from "
+               "shipped files (DESIGN.md 8.5) and to a second sampling tagger copied from the shipped one",
                "observation by wrapping instance attributes of state handler, scheduler, activator, input-output "
                "handler and event handlers; private reads: Mediator._state_handler/_scheduler/_activator/"
                "_input_output_handler, Activator._taggers/_internal_states"]
